@@ -486,6 +486,24 @@ func judge(c *Case) (fails []failure, src, got string) {
 	return fails, src, got
 }
 
+// visibleTies tells whether a sort case holds two distinguishable elements
+// the predicate does not order (what stability is about).
+func visibleTies(c *Case) bool {
+	if c.Pred == "" {
+		return false
+	}
+	key, less := c.keyFn(), orders[c.Pred].f
+	el := parseToks(c.S1)
+	for i := range el {
+		for j := i + 1; j < len(el); j++ {
+			if !el[i].equal(el[j]) && !less(key(el[i]), key(el[j])) && !less(key(el[j]), key(el[i])) {
+				return true
+			}
+		}
+	}
+	return false
+}
+
 func seqClass(show string) string {
 	switch {
 	case strings.HasPrefix(show, "#("):
@@ -655,6 +673,24 @@ func exec(x *fw.Ctx, c Case) {
 	if c.Test != "" {
 		x.Cover("test:" + c.Test)
 	}
+	if c.Route != "" {
+		x.Cover("route:" + c.Route + "/" + c.T1)
+		x.Cover("route-fn:" + c.Fn)
+	}
+	if c.Same {
+		x.Cover("same-object:" + c.Fn)
+	}
+	if c.Prior {
+		x.Cover("after-failed-call:" + c.Fn)
+	}
+	if sp.fam == "sort" || sp.fam == "merge" {
+		if 8 < len(c.S1) {
+			x.Cover("long(9..30):" + c.Fn)
+		}
+		if sp.fam == "sort" && visibleTies(&c) {
+			x.Cover("ties-visible:" + c.Fn)
+		}
+	}
 	coverAvoidSets(x, &c)
 	if len(fails) == 0 {
 		x.Cover("agreed")
@@ -673,6 +709,15 @@ func exec(x *fw.Ctx, c Case) {
 		}
 		sig := fmt.Sprintf("fn=%s fail=%s feat=%s kw=%s typ=%s", c.Fn, kind, m.features(kind), m.kwSig(), m.typSig()) + m.decorSig()
 		msg := f.msg
+		if rf := freshRouteFn[m.Route]; kind == "donor-modified" && rf != "" {
+			if in1 := oracle(&m).in1; in1 == "" || in1 == "=" {
+				// the function may modify sequence-1: that the donor changes with it
+				// is the defect of the operation that is defined to return a
+				// fresh sequence
+				sig = fmt.Sprintf("fn=%s fail=result-shares-storage typ=%s via=%s", rf, m.T1, c.Fn)
+				msg = "the result of " + rf + " shares storage with its argument: " + msg
+			}
+		}
 		if ms := m.source(); ms != src {
 			for _, mf := range safeJudge(&m) {
 				if mf.kind == f.kind {
@@ -841,6 +886,9 @@ type tierPlan struct {
 	pairFT []int   // indices into fnTypes
 	reps   int
 	kw     []kwEntry
+	routes []routeEntry
+	same   []sameEntry
+	decSq  [][]int // sequences of the routes and same blocks
 }
 
 var (
@@ -937,6 +985,13 @@ func plan(tier string) *tierPlan {
 			p.pairFT = append(p.pairFT, fi)
 		}
 	}
+	p.decSq = seqsOver(2, 0, 3)
+	if tier == "thorough" {
+		p.decSq = seqsOver(3, 0, 3)
+		p.routes, p.same = buildRouteEntries(p.decSq, 4), buildSameEntries(p.decSq, 8)
+	} else {
+		p.routes, p.same = buildRouteEntries(p.decSq, 2), buildSameEntries(p.decSq, 4)
+	}
 	plans[tier] = p
 	return p
 }
@@ -949,14 +1004,15 @@ const (
 )
 
 // sizes gives the lengths of the blocks: grid, exhaustive sequences,
-// enumerated keyword values, enumerated sequence pairs, seeded.
-func sizes(tier string) [5]int {
+// enumerated keyword values, enumerated sequence pairs, routes, same object,
+// seeded.
+func sizes(tier string) [7]int {
 	p := plan(tier)
 	nPairs := len(p.pairFT) * len(p.pairSq) * len(p.pairSq) * p.reps
 	if tier == "thorough" {
-		return [5]int{len(grid), len(fnTypes) * len(seqs4) * exhRepsDeep, len(p.kw), nPairs, randThorough}
+		return [7]int{len(grid), len(fnTypes) * len(seqs4) * exhRepsDeep, len(p.kw), nPairs, len(p.routes), len(p.same), randThorough}
 	}
-	return [5]int{len(grid), len(fnTypes) * len(seqs3) * exhReps, len(p.kw), nPairs, randQuick}
+	return [7]int{len(grid), len(fnTypes) * len(seqs3) * exhReps, len(p.kw), nPairs, len(p.routes), len(p.same), randQuick}
 }
 
 func nCases(tier string) int {
@@ -1056,11 +1112,65 @@ func gen(r *rand.Rand, i int, tier string) Case {
 		c.Block = "pairs"
 		return c
 	}
-	// seeded: longer sequences (4..8), everything drawn at random
+	base := sz[0] + sz[1] + sz[2] + sz[3]
+	switch {
+	case i < base+sz[4]:
+		// seed-independent: sequence-1 reached through every route (tail of a longer
+		// list, result of subseq / reverse / nreverse / delete, vector with a fill
+		// pointer, vector grown by vector-push-extend), short sequences, keywords
+		// drawn per index; every second case is preceded by a failed call
+		p := plan(tier)
+		e := p.routes[i-base]
+		ft := fnTypes[e.ft]
+		dr := rand.New(rand.NewPCG(uint64(i), uint64(0xD14+int(e.rep))))
+		k := free
+		k.seq = p.decSq[e.seq]
+		c := genCase(dr, ft.sp, ft.typ, k)
+		if c.T1 != "" {
+			c.Route = e.route
+		}
+		if e.rep%2 == 1 && priorCapable(ft.sp) {
+			c.Prior = true
+		}
+		c.Block = "routes"
+		return c
+	case i < base+sz[4]+sz[5]:
+		// seed-independent: sequence-2 is the same object as sequence-1; for search,
+		// mismatch and replace every bounds quadruple (overlapping regions of replace)
+		p := plan(tier)
+		e := p.same[i-base-sz[4]]
+		ft := fnTypes[e.ft]
+		dr := rand.New(rand.NewPCG(uint64(i), uint64(0xF14+int(e.rep))))
+		k := free
+		k.seq, k.seq2 = p.decSq[e.seq], p.decSq[e.seq]
+		k.key = 1 // quant, map: two sequences
+		if e.enum {
+			k.bounds, k.bounds2, k.fromEnd = 0, 0, 0
+		}
+		c := genCase(dr, ft.sp, ft.typ, k)
+		makeSame(&c) // (a quantifier on a bit-vector has one sequence only)
+		if e.enum {
+			c.Start, c.End = opt8(e.start), opt8(e.end)
+			c.Start2, c.End2 = opt8(e.start2), opt8(e.end2)
+			c.FromEnd = ""
+			if e.fromEnd {
+				c.FromEnd = "t"
+			}
+		}
+		c.Block = "same"
+		return c
+	}
+	// seeded: longer sequences (4..8), everything drawn at random; a quarter of
+	// the cases reach sequence-1 through a route, an eighth share sequence-2, an
+	// eighth follow a failed call; sort, stable-sort and merge also on 9..30
 	ft := fnTypes[r.IntN(len(fnTypes))]
 	k := free
 	k.minLen, k.maxLen = 4, 8
+	if (ft.sp.fam == "sort" || ft.sp.fam == "merge") && r.IntN(4) == 0 {
+		k.minLen, k.maxLen = 9, 30
+	}
 	c := genCase(r, ft.sp, ft.typ, k)
+	decorate(r, &c)
 	c.Block = "seeded"
 	return c
 }
